@@ -75,7 +75,7 @@ pub fn gen_step(rng: &mut Rng, spec: &WorldSpec, serial: usize, allow_fail: bool
                 OutStep { fd, hex: hex(format!("r{} {} {} fd{} line{}\n", serial, cf.command, cf.target, fd, i).as_bytes()), pause_ms: 0, close: false }
             })
             .collect();
-        behav.push(Behav { command: cf.command.clone(), target: cf.target.clone(), outs, code: 0, exit_pause_ms: 0 });
+        behav.push(Behav { command: cf.command.clone(), target: cf.target.clone(), outs, code: 0, exit_pause_ms: 0, early_exit: false, hold_pipes_ms: 0 });
     }
     if allow_fail && !behav.is_empty() && rng.chance(1, 4) {
         let i = rng.below(behav.len());
